@@ -232,7 +232,7 @@ class Histories(History):
                     i, j = kk.split(',')
                     spec['omega'][kk] = ['SingleSite', {}] if i == j else ['NoIntra', {}]
             return spec
-        return S.system_spec(allow_ms=True).map(norm)
+        return S.system_spec(allow_ms=True, max_types=4).map(norm)
 
     def ops(self, tier):
         return edit_ops()
